@@ -8,12 +8,21 @@ FilterSound(FS) ==
     \A F \in FS : \A L \in SubListsOf(RawReady(inst, State)) :
         L # <<>> => LET R == ApplyFilters(inst, State, F, L)
                     IN R # <<>> /\ IsSubSeqOf(R, L) /\ NoDup(R)
-Inv_FilterSound2 == FilterSound(FiltSingles \cup FiltPairs)
-Inv_FilterSound3 == FilterSound(FiltSingles \cup FiltPairs \cup FiltTriples)
+Inv_FilterSound2 == Started =>
+   (
+ FilterSound(FiltSingles \cup FiltPairs)
+   )
+Inv_FilterSound3 == Started =>
+   (
+ FilterSound(FiltSingles \cup FiltPairs \cup FiltTriples)
+   )
 (* idempotence and insensitivity facts the documentation implies            *)
-Inv_FilterIdempotent ==
+Inv_FilterIdempotent == Started =>
+   (
+
     \A f \in AllFilters : LET R == ApplyFilter(inst, State, f, RawReady(inst, State))
                           IN ApplyFilter(inst, State, f, R) = R \/ (f = "dom" /\ ~PositiveDurations(inst))
+   )
 Kinds3 == <<"rec", "hist", "histsub">>
 Kinds2 == <<"rec", "hist">>
 NoKinds == <<>>
